@@ -63,11 +63,11 @@ def gen_macros(repo):
     out = ['// generated from iceoryx2-log/log/src/fail.rs: %d debug!(..) statements deleted' % n,
            src2,
            _gen_fatal_panic(repo),
-           'macro_rules! warn { ($($t:tt)*) => { } }',
-           'macro_rules! error { ($($t:tt)*) => { } }',
-           'macro_rules! debug { ($($t:tt)*) => { } }',
-           'macro_rules! trace { ($($t:tt)*) => { } }',
-           'macro_rules! info { ($($t:tt)*) => { } }',
+           'macro_rules! warn { ($($t:tt)*) => { () } }',
+           'macro_rules! error { ($($t:tt)*) => { () } }',
+           'macro_rules! debug { ($($t:tt)*) => { () } }',
+           'macro_rules! trace { ($($t:tt)*) => { () } }',
+           'macro_rules! info { ($($t:tt)*) => { () } }',
            ]
     return '\n'.join(out) + '\n'
 
